@@ -832,7 +832,14 @@ func (r *Reader) FetchMessage(ctx context.Context) (Message, error) {
 		}
 
 		version := r.version
+		closed := r.closed
 		r.mutex.Unlock()
+
+		if closed {
+			// Messages that were still queued when the reader was closed are
+			// not handed out anymore.
+			return Message{}, io.EOF
+		}
 
 		select {
 		case <-ctx.Done():
